@@ -8,6 +8,8 @@
          structure is `struct_vis s1 cl1` (Repl/StructVisSpec.v, Properties/C03V.v): `struct_of s1` filtered by the
          visibility of [cl1], the server-side record of the slot in the state [s1] (after that frame's `send_for_client`).
      G2  several sessions: `StDisconnect` and `StStop` anywhere, under the decidable premise [sessions_ok] on the script.
+     G3  (part 6) pre-spawn mappings: `SMap` operations allowed, under the premise [run_maps_ok] on the run (what C16
+         promises about a mapping; decidable: [run_maps_okb] computes it along the run).
    Server half: Properties/C03V.v (ghost `g_sent`, invariant `ginv_v`); client half: Properties/C03E.v part A
    (policy independent).  Proofs: Repl/StructE2EVis_proofs.v (what a server frame does, with `ginv_v`),
    Repl/StructE2ESess_proofs.v (the invariant of a whole-system run).
@@ -35,7 +37,8 @@
    slots keep their guarantees whatever happens to them. *)
 From RV Require Import Lib.Res Repl.ClientTicks Repl.World Vis.Visibility Repl.Server Repl.ServerSpec
   Repl.StructSpec Repl.StructVisSpec Repl.StructVisRun_proofs Repl.Client Repl.Sys Repl.Client_proofs Repl.ClientStructSpec Repl.ClientStruct_proofs
-  Repl.ClientSys_proofs Repl.StructE2E_proofs Repl.StructE2EMut_proofs Repl.StructE2EVis_proofs Repl.StructE2ESess_proofs.
+  Repl.ClientSys_proofs Repl.StructE2E_proofs Repl.StructE2EMut_proofs Repl.StructE2EVis_proofs Repl.StructE2ESess_proofs
+  Repl.ClientHistMaps_proofs Repl.StructE2EMaps_proofs.
 From RV Require Import Properties.C09.
 Open Scope N_scope.
 
@@ -467,4 +470,196 @@ Example C03F_ex_stale_slot :
              (1, MLive, Connected, 2, [(1, [0]); (2, [0])], 0%nat, 0%nat, 0%nat)],
             [(0, [(1, [0]); (2, [0])]); (1, [(1, [0]); (2, [0])])], 2) /\
   sessions_ok c09_w2 = true.
+Proof. vm_compute. repeat split; reflexivity. Qed.
+
+(* ---- 6. G3: pre-spawn mappings (`SMap` operations) ----
+   The same statements (every policy, several sessions) for scripts WITH `SMap` operations: `script_okg` is
+   `legal && sessions_ok` (no `no_smap`).  The premise [run_maps_ok y0 script] says, for every step of the run:
+     - StSFrame: every update message produced names, in its mappings, only entities that are in its changes array
+       ([maps_in_changes]; C16's premise "registered no later than the tick in which the entity first becomes visible to
+       that client" gives this: C03V_unknown_visible_is_sent_whole);
+     - StCFrame: when the (connected) client applies its inbox every mapping is harmless at that moment ([inbox_maps_ok],
+       [maps_ok]: the server entity is unknown to the client, not even as the placeholder of an entity reference; the
+       pre-spawned entity, if alive, is neither marked nor mapped), and the client operations of the frame are harmless
+       ([cops_safe]: the client does not despawn a pre-spawned entity a server entity is mapped to).
+   It is decidable along the run: [run_maps_okb] (C03F_maps_checker).  Proofs: Repl/ClientHistMaps_proofs.v (the history
+   argument and the client frame with mappings), Repl/StructE2EMaps_proofs.v. *)
+
+(* the client step with mappings: structure, invariant, confirm histories *)
+Theorem C03F_update_message_maps : forall c S u c' applied,
+  cs_inv c -> srel c S -> hist_small c -> ent_hist_ok applied c ->
+  (forall u0, In u0 applied -> u_tick u0 <= u_tick u) -> small_tick (u_tick u) ->
+  maps_ok (set_upd_tick c (u_tick u)) (u_maps u) -> maps_in_changes u ->
+  apply_update_message c u = Ok c' ->
+  cs_inv c' /\ srel c' (abs_apply S u) /\ hist_small c' /\ ent_hist_ok (applied ++ [u]) c'.
+Proof. exact update_message_maps_props. Qed.
+
+(* a whole client frame under the history invariant, with mappings *)
+Theorem C03F_client_frame_maps : forall c applied lupd ops c' out,
+  hist_pre_m c applied lupd -> cl_status c = Connected ->
+  (forall c2 out2, apply_replication c = Ok (c2, out2) -> cops_safe c2 ops = true) ->
+  client_frame c ops = Ok (c', out) ->
+  cs_inv c' /\ srel c' (fold_left abs_apply (applied ++ cl_inbox_upd c) []) /\
+  ent_hist_ok (applied ++ cl_inbox_upd c) c' /\ hist_small c' /\
+  (applied ++ cl_inbox_upd c <> [] -> cl_upd_tick c' = u_tick (last (applied ++ cl_inbox_upd c) dflt_upd)) /\
+  cl_inbox_upd c' = [] /\ cl_inbox_mut c' = [] /\ cl_status c' = Connected /\
+  (forall m, In m (cl_buffered c') -> In m (cl_inbox_mut c ++ cl_buffered c)).
+Proof. exact frame_hist_maps. Qed.
+
+Theorem C03F_maps_checker : forall script y, run_maps_okb y script = true -> run_maps_ok y script.
+Proof. exact run_maps_okb_sound. Qed.
+
+Theorem C03F_maps_fifo : forall cfg0 nclients script y gs slot c,
+  script_okg script = true -> run_maps_ok (sys_init cfg0 nclients) script -> tick_frames script < 2 ^ 31 ->
+  erun_s (sys_init cfg0 nclients) [] script = Ok (y, gs) ->
+  al_get slot (y_clients y) = Some c -> mode_of script slot = MLive -> cl_status c = Connected ->
+  ginv_v (mkG (y_server y) gs) /\
+  exists applied,
+    struct_equiv (client_struct c) (fold_left abs_apply applied []) /\
+    fold_left abs_apply (applied ++ cl_inbox_upd c ++ l_upd (get_link y slot)) [] = sent_of slot gs /\
+    (applied <> [] -> cl_upd_tick c = u_tick (last applied dflt_upd)) /\
+    ticks_incr (applied ++ cl_inbox_upd c ++ l_upd (get_link y slot)) /\
+    (forall p q, applied ++ cl_inbox_upd c ++ l_upd (get_link y slot) = p ++ q -> p <> [] ->
+       exists pre post y1 cl1, script = pre ++ post /\ run (sys_init cfg0 nclients) pre = Ok y1 /\
+         forallb (fun st => negb (ends_session slot st)) post = true /\
+         find_client (y_server y1) slot = Some cl1 /\ sc_authorized cl1 = true /\
+         struct_equiv (fold_left abs_apply p []) (struct_vis (y_server y1) cl1) /\
+         u_tick (last p dflt_upd) = sv_tick (y_server y1)).
+Proof. exact g_fifo. Qed.
+
+Theorem C03F_maps_in_flight : forall cfg0 nclients script y gs slot c,
+  script_okg script = true -> run_maps_ok (sys_init cfg0 nclients) script -> tick_frames script < 2 ^ 31 ->
+  erun_s (sys_init cfg0 nclients) [] script = Ok (y, gs) ->
+  al_get slot (y_clients y) = Some c -> mode_of script slot = MLive -> cl_status c = Connected ->
+  struct_equiv (fold_left abs_apply (cl_inbox_upd c ++ l_upd (get_link y slot)) (client_struct c)) (sent_of slot gs).
+Proof. exact g_in_flight. Qed.
+
+Theorem C03F_maps_every_moment : forall cfg0 nclients script y slot c,
+  script_okg script = true -> run_maps_ok (sys_init cfg0 nclients) script -> tick_frames script < 2 ^ 31 ->
+  run (sys_init cfg0 nclients) script = Ok y -> al_get slot (y_clients y) = Some c ->
+  mode_of script slot = MClean \/ mode_of script slot = MLive ->
+  struct_equiv (client_struct c) [] \/
+  exists pre post y1 cl1, script = pre ++ post /\ run (sys_init cfg0 nclients) pre = Ok y1 /\
+    forallb (fun st => negb (ends_session slot st)) post = true /\
+    find_client (y_server y1) slot = Some cl1 /\ sc_authorized cl1 = true /\
+    struct_equiv (client_struct c) (struct_vis (y_server y1) cl1) /\ cl_upd_tick c = sv_tick (y_server y1).
+Proof. exact g_every_moment. Qed.
+
+Theorem C03F_maps_tick_monotone : forall cfg0 nclients script y gs slot c ops y' o c',
+  script_okg script = true -> run_maps_ok (sys_init cfg0 nclients) script -> tick_frames script < 2 ^ 31 ->
+  erun_s (sys_init cfg0 nclients) [] script = Ok (y, gs) ->
+  al_get slot (y_clients y) = Some c -> mode_of script slot = MLive -> cl_status c = Connected ->
+  cframe_ok c ops ->
+  sys_step y (StCFrame slot ops) = Ok (y', o) -> al_get slot (y_clients y') = Some c' ->
+  struct_equiv (client_struct c) [] \/ cl_upd_tick c <= cl_upd_tick c'.
+Proof. exact g_tick_monotone. Qed.
+
+Print Assumptions C03F_update_message_maps.
+Print Assumptions C03F_client_frame_maps.
+Print Assumptions C03F_maps_checker.
+Print Assumptions C03F_maps_fifo.
+Print Assumptions C03F_maps_in_flight.
+Print Assumptions C03F_maps_every_moment.
+Print Assumptions C03F_maps_tick_monotone.
+
+(* entities of a client: id, pre-spawn id, alive, marker, kinds; and its server -> client map *)
+Definition fx_ents (r : res sys) (slot : N) :=
+  match r with
+  | Ok y => match al_get slot (y_clients y) with
+            | Some c => Some (map (fun kv => (fst kv, ce_pre (snd kv), ce_alive (snd kv), ce_marker (snd kv), map fst (ce_comps (snd kv)))) (cl_ents c),
+                              cl_s2c c)
+            | None => None
+            end
+  | _ => None
+  end.
+
+(* client 0 pre-spawns an entity (id 9); the server registers entity 1 as its counterpart in the tick in which entity 1
+   is first sent to client 0: entity 1 lands on the pre-spawned client entity 0 (C16) and the structures agree, for a
+   blacklist and for a whitelist; client 1 does not see entity 1 *)
+Definition fx_map : list step :=
+  [StStart; StConnect 0 1200; StConnect 1 1200; StCFrame 0 [CPrespawn 9];
+   fsfr true [SSpawn 1 true [(0, VNat 1)]; SSpawn 2 true [(0, VNat 5)]; SVis 0 1 true; SVis 0 2 true; SVis 1 2 true; SVis 1 1 false; SMap 0 1 9];
+   StDeliver 0 true 0 All; StCFrame 0 []; StDeliver 1 true 0 All; StCFrame 1 [];
+   fsfr true [SInsert 1 2 (VNat 3); SMutate 2 0 (VNat 6)]; StDeliver 0 true 0 All; StDeliver 0 true 1 All; StCFrame 0 []].
+
+Example C03F_ex_maps :
+  script_okg fx_map = true /\ no_smap fx_map = false /\ tick_frames fx_map = 2 /\
+  run_maps_okb (sys_init fx_bl 2) fx_map = true /\ run_maps_okb (sys_init fx_wl 2) fx_map = true /\
+  fx_view fx_map (run (sys_init fx_wl 2) fx_map)
+    = Some ([(0, MLive, Connected, 2, [(1, [0; 2]); (2, [0])], 0%nat, 0%nat, 0%nat);
+             (1, MLive, Connected, 1, [(2, [0])], 0%nat, 0%nat, 1%nat)],
+            [(0, [(1, [0; 2]); (2, [0])]); (1, [(2, [0])])], 2) /\
+  fx_ents (run (sys_init fx_wl 2) fx_map) 0
+    = Some ([(0, Some 9, true, true, [0; 2]); (1, None, true, true, [0])], [(1, 0); (2, 1)]).
+Proof. vm_compute. repeat split; reflexivity. Qed.
+
+Example C03F_ex_maps_instance : forall c0, c0 = fx_bl \/ c0 = fx_wl ->
+  exists y, run (sys_init c0 2) fx_map = Ok y /\
+    forall slot c, al_get slot (y_clients y) = Some c ->
+      struct_equiv (client_struct c) [] \/
+      exists pre post y1 cl1, fx_map = pre ++ post /\ run (sys_init c0 2) pre = Ok y1 /\
+        forallb (fun st => negb (ends_session slot st)) post = true /\
+        find_client (y_server y1) slot = Some cl1 /\ sc_authorized cl1 = true /\
+        struct_equiv (client_struct c) (struct_vis (y_server y1) cl1) /\ cl_upd_tick c = sv_tick (y_server y1).
+Proof.
+  intros c0 Hc0.
+  assert (Hmodes : forall slot, mode_of fx_map slot = MClean \/ mode_of fx_map slot = MLive).
+  { intros slot. destruct (N.eq_dec slot 0) as [->|H0]; [right; vm_compute; reflexivity|].
+    destruct (N.eq_dec slot 1) as [->|H1]; [right; vm_compute; reflexivity|].
+    left. destruct (mode_of fx_map slot) eqn:Em; [reflexivity| | |];
+      (exfalso; assert (Hin : In slot (connect_slots fx_map)) by (apply mode_not_clean; rewrite Em; discriminate);
+       vm_compute in Hin; destruct Hin as [?|[?|[]]]; congruence). }
+  assert (Hb : tick_frames fx_map < 2 ^ 31) by (rewrite (proj1 (proj2 (proj2 C03F_ex_maps))); reflexivity).
+  assert (Hmk : run_maps_ok (sys_init c0 2) fx_map).
+  { apply C03F_maps_checker. destruct Hc0; subst c0; apply C03F_ex_maps. }
+  destruct (run (sys_init c0 2) fx_map) as [y| |] eqn:E;
+    [|destruct Hc0; subst c0; vm_compute in E; discriminate|destruct Hc0; subst c0; vm_compute in E; discriminate].
+  exists y. split; [reflexivity|]. intros slot c Hc.
+  exact (C03F_maps_every_moment c0 2 fx_map y slot c (proj1 C03F_ex_maps) Hmk Hb E Hc (Hmodes slot)).
+Qed.
+
+(* why each part of [run_maps_ok] is there *)
+
+(* M1. the mapped entity is not replicated (no `Replicated` marker): the update message carries the mapping only; the
+       client marks the pre-spawned entity and maps it: it holds entity 1 (no kinds), the server replicates nothing *)
+Definition w_map_unsent : list step :=
+  [StStart; StConnect 0 1200; StCFrame 0 [CPrespawn 9];
+   fsfr true [SSpawn 1 false [(0, VNat 1)]; SMap 0 1 9]; StDeliver 0 true 0 All; StCFrame 0 []].
+
+Example C03F_witness_map_unsent :
+  script_okg w_map_unsent = true /\ run_maps_okb (sys_init fx_all 1) w_map_unsent = false /\
+  run_maps_okb (sys_init fx_all 1) (firstn 3 w_map_unsent) = true /\ c03_check fx_all 1 w_map_unsent 0 = false /\
+  fx_view w_map_unsent (run (sys_init fx_all 1) w_map_unsent)
+    = Some ([(0, MLive, Connected, 1, [(1, [])], 0%nat, 0%nat, 0%nat)], [(0, [])], 1).
+Proof. vm_compute. repeat split; reflexivity. Qed.
+
+(* M2. the same pre-spawned entity is named for a second server entity (the mapping is in the changes array, but
+       [maps_ok] fails when the client applies it): both server entities are mapped to one client entity *)
+Definition w_map_twice : list step :=
+  [StStart; StConnect 0 1200; StCFrame 0 [CPrespawn 9];
+   fsfr true [SSpawn 1 true [(0, VNat 1)]; SMap 0 1 9]; StDeliver 0 true 0 All; StCFrame 0 [];
+   fsfr true [SSpawn 2 true [(1, VNat 1)]; SMap 0 2 9]; StDeliver 0 true 0 All; StCFrame 0 []].
+
+Example C03F_witness_map_twice :
+  script_okg w_map_twice = true /\ run_maps_okb (sys_init fx_all 1) w_map_twice = false /\
+  run_maps_okb (sys_init fx_all 1) (firstn 8 w_map_twice) = true /\ c03_check fx_all 1 w_map_twice 0 = false /\
+  fx_view w_map_twice (run (sys_init fx_all 1) w_map_twice)
+    = Some ([(0, MLive, Connected, 2, [(1, [0; 1]); (2, [0; 1])], 0%nat, 0%nat, 0%nat)], [(0, [(1, [0]); (2, [1])])], 2) /\
+  fx_ents (run (sys_init fx_all 1) w_map_twice) 0 = Some ([(0, Some 9, true, true, [0; 1])], [(1, 0); (2, 0)]).
+Proof. vm_compute. repeat split; reflexivity. Qed.
+
+(* M3. the client despawns the pre-spawned entity that server entity 1 is mapped to ([cops_safe] fails): the mapping
+       stays, the next update message that mentions entity 1 is aborted at that entry and the entry for entity 2 behind it
+       is lost although the update tick moves to 2: the client holds nothing, the server replicated {1, 2} at tick 2
+       (the disjunct "empty" of C03F_every_moment holds trivially here; C03F_fifo is the statement that fails) *)
+Definition w_map_despawn : list step :=
+  [StStart; StConnect 0 1200; StCFrame 0 [CPrespawn 9];
+   fsfr true [SSpawn 1 true [(0, VNat 1)]; SMap 0 1 9]; StDeliver 0 true 0 All; StCFrame 0 [CDespawn 9];
+   fsfr true [SInsert 1 1 (VNat 2); SSpawn 2 true [(0, VNat 5)]]; StDeliver 0 true 0 All; StCFrame 0 []].
+
+Example C03F_witness_map_despawn :
+  script_okg w_map_despawn = true /\ run_maps_okb (sys_init fx_all 1) w_map_despawn = false /\
+  run_maps_okb (sys_init fx_all 1) (firstn 5 w_map_despawn) = true /\
+  fx_view w_map_despawn (run (sys_init fx_all 1) w_map_despawn)
+    = Some ([(0, MLive, Connected, 2, [], 0%nat, 0%nat, 0%nat)], [(0, [(1, [0; 1]); (2, [0])])], 2).
 Proof. vm_compute. repeat split; reflexivity. Qed.
